@@ -75,9 +75,24 @@ def departure_script(rng):
     for ns in served:
         ops.append(['connect', 1, ns, None])
         ops.append(['enter', ['sid', 1, ns], ROOMS[0], ns])
+    member = rng.random() < 0.6
     for ns in served:
         ops.append(['connect', 2, ns, None])
-    ops.append([rng.choice(['lose', 'cclose']), 2])
+        if member:
+            # the departing client is in the room its own departure is
+            # announced to
+            ops.append(['enter', ['sid', 2, ns], ROOMS[0], ns])
+    how = rng.choice(['lose', 'cclose', 'sdisc', 'sdisc', 'cdisc'])
+    if how in ('lose', 'cclose'):
+        ops.append([how, 2])
+    else:
+        # the server (or the client) ends the namespaces one by one: what
+        # the handlers send reaches the transport's other sessions - and,
+        # for a server-initiated end, the departing session itself, after
+        # its DISCONNECT packet
+        for ns in rng.sample(served, rng.randint(1, len(served))):
+            ops.append(['sdisc', ['sid', 2, ns], ns] if how == 'sdisc'
+                       else ['cdisc', 2, ns])
     ops.append(['emit', 1, ROOMS[0], None, served[0], None, 'after'])
     return cfg, ops
 
